@@ -51,6 +51,11 @@ def _data(rng, N, kind):
         return th
     if kind == "int":
         return rng.integers(-3, 9, N)
+    if kind == "infrep":  # a metric that is infinite on some resamples (a threshold at an unattainable rate): +-inf are replicates, only NaN is ignored
+        th = rng.normal(0, 1, N)
+        if N > 2:
+            th[rng.integers(0, N, size=max(1, N // 10))] = float(rng.choice([np.inf, -np.inf, np.inf]))
+        return th
     if kind == "f32rates":  # rates k/n computed in single precision (a float32 pipeline); the estimate comes in double precision
         n_ = int(rng.choice([30, 7, 100, 12]))
         return (rng.binomial(n_, float(rng.uniform(0.1, 0.9)), N) / n_).astype(np.float32)
@@ -64,7 +69,7 @@ def _data(rng, N, kind):
 
 def cases(ctx):
     rng = ctx.rng
-    kinds = ["gauss", "const", "lattice", "skew", "outlier", "nan", "int", "dyadic", "narrowint", "f32rates"]
+    kinds = ["gauss", "const", "lattice", "skew", "outlier", "nan", "int", "dyadic", "narrowint", "f32rates", "infrep"]
     for i in range(ctx.n(1200, 6000)):
         N = int(rng.choice([1, 2, 3, 5, 10, 50, 200, 500], p=[.1, .1, .1, .15, .2, .2, .1, .05]))
         kind = str(rng.choice(kinds))
@@ -81,7 +86,7 @@ def cases(ctx):
         if kind == "int" and rng.random() < 0.6:
             that = int(round(that))  # integer estimate with integer replicates (an integer-valued metric)
         alpha = float(rng.choice([0.05, 0.1, 0.5, 0.01, 0.9, float(rng.uniform(0.001, 0.999))]))
-        if kind not in ("int", "narrowint", "f32rates") and rng.random() < 0.3:  # replicates of another magnitude (small rates, large counts): exact power-of-two scaling
+        if kind not in ("int", "narrowint", "f32rates", "infrep") and rng.random() < 0.3:  # replicates of another magnitude (small rates, large counts): exact power-of-two scaling
             c = 2.0 ** int(rng.integers(-45, 46))
             th, that, kind = th * c, that * c, kind + "*2^k"
         if i % 40 == 7:
@@ -135,6 +140,28 @@ def execute(ctx, case):
         _traffic(case)
         return True
     th, that, alpha, alpha2 = case["theta"], case["that"], case["alpha"], case["alpha2"]
+    if case["kind"] == "infrep":
+        # replicates that are +-inf on some resamples: they are replicates (only NaN is ignored), so they count in the fraction p0 and in the
+        # quantiles. Claimed for 'quantile' and 'bc' with a finite estimate (the acceleration of 'bca' is undefined with an infinite deviation:
+        # the library raises there, and nothing is claimed); the monitor's generic formula check is out of scope for these inputs
+        import scipy.stats as _st
+
+        thf_ = np.asarray(th, dtype=float)
+        that_ = float(that) if np.isfinite(float(that)) else 0.0
+        nn_ = int(np.sum(~np.isnan(thf_)))
+        sess.observe("R-bci")
+        with monitors.oracle_scope_ctx():
+            got_q = bootstrap_ci(thf_, that_, alpha, method="quantile")
+            got_bc = bootstrap_ci(thf_, that_, alpha, method="bc")
+        with np.errstate(all="ignore"):
+            exp_q = np.nanquantile(thf_, [alpha / 2, 1 - alpha / 2])
+            z0_ = _st.norm.ppf(np.sum(thf_ <= that_) / nn_)
+            exp_bc = np.nanquantile(thf_, [_st.norm.cdf(2 * z0_ + _st.norm.ppf(alpha / 2)), _st.norm.cdf(2 * z0_ + _st.norm.ppf(1 - alpha / 2))])
+        sess.check("R-bci", np.allclose(got_q, exp_q, rtol=1e-12, atol=0, equal_nan=True) and np.allclose(got_bc, exp_bc, rtol=1e-9, atol=1e-12, equal_nan=True),
+                   "quantile / bc limits with infinite replicates differ from the documented formulas (inf counts as a replicate, NaN does not)",
+                   lambda: {"theta": thf_, "theta_hat": that_, "alpha": alpha, "quantile": got_q, "expected_quantile": exp_q, "bc": got_bc, "expected_bc": exp_bc}, sig=("infrep",), key="bci-infinite-replicates")
+        sess.sig_counts[("case", "infrep")] += 1
+        return True
     rs = np.random.default_rng(case["_seed"])
     thf = th.astype(float)
     fin = thf[~np.isnan(thf)]
